@@ -1,0 +1,22 @@
+//go:build verif
+
+package dist
+
+import (
+	"time"
+
+	"github.com/acquirecloud/golibs/sync"
+)
+
+// VerifSetLeaseTTL sets the lease period of a lock provider created by New or
+// NewKvsLockProvider (test knob of the verification harness: short leases).
+// It must be called before the first Locker of the provider is used. It
+// reports whether p is a provider of this package.
+func VerifSetLeaseTTL(p sync.LockProvider, d time.Duration) bool {
+	kp, ok := p.(*kvsLockProvider)
+	if !ok {
+		return false
+	}
+	kp.leaseTTL = d
+	return true
+}
